@@ -241,6 +241,18 @@ func crashHistory(rep *Report, m *model.Client, cfg engine.Config, ops []engine.
 	if tier == "thorough" {
 		maxB = 100000
 	}
+	if len(log) > 1500 {
+		// a history with a very large transaction: a dozen boundaries, half of them at the end of the log (the big
+		// commit's header write and final sync, the small commit after it)
+		var sel []int
+		for i := 0; i < 8 && i < len(bounds); i++ {
+			sel = append(sel, bounds[len(bounds)-1-i])
+		}
+		for i := 0; i < 8; i++ {
+			sel = append(sel, bounds[r.Intn(len(bounds))])
+		}
+		bounds = sel
+	}
 	if len(bounds) > maxB {
 		r.Shuffle(len(bounds), func(i, j int) { bounds[i], bounds[j] = bounds[j], bounds[i] })
 		bounds = bounds[:maxB]
@@ -281,8 +293,21 @@ func crashHistory(rep *Report, m *model.Client, cfg engine.Config, ops []engine.
 		} else {
 			add(nil, -1, -1)
 			add(pend, -1, -1)
-			for _, i := range pend {
-				if tier == "thorough" || r.Intn(3) == 0 {
+			// very many pending chunks (a transaction of thousands of pages): the header chunks and a few others
+			singles := pend
+			if len(pend) > 64 {
+				singles = nil
+				for _, i := range pend {
+					if c := chunks[i]; !c.Truncate && c.Off < int64(2*ps) {
+						singles = append(singles, i)
+					}
+				}
+				for q := 0; q < 6; q++ {
+					singles = append(singles, pend[r.Intn(len(pend))])
+				}
+			}
+			for _, i := range singles {
+				if tier == "thorough" || len(pend) > 64 || r.Intn(3) == 0 {
 					add([]int{i}, -1, -1)
 					var comp []int
 					for _, j := range pend {
@@ -365,7 +390,7 @@ func init() {
 	register("c01", func(args []string) int {
 		f := parseFlags("c01", args)
 		rep := newReport("C01", f)
-		rep.Rule = "random histories (alloc / overwrite / free / flush / checkpoint / rollback, bounded + unbounded, WAL limits 1/2/3/1000, meta areas 0/1/4/8) on the simulated disk; (K2) the complete disk trace of every history is checked by the extracted Coq monitor; (oracle) crash images at I/O boundaries (all in thorough, 40 sampled per history in quick) x subsets of the un-synced page chunks (all subsets up to 4 [quick] / 8 [thorough] chunks, otherwise none/all/singletons/complements/random) x byte-prefix tears of in-flight header writes, each reopened through the real open path, compared with the allowed committed state(s) identified by the header txid, followed by a continuation transaction, re-verification and a second reopen; (K1) the recovery model vs. the open path on sampled crash images. plus append-only histories whose transactions are flushed early (idle writer at Commit). Non-trivial: every distinct (history, boundary, subset, tear)."
+		rep.Rule = "random histories (alloc / overwrite / free / flush / checkpoint / rollback, bounded + unbounded, WAL limits 1/2/3/1000, meta areas 0/1/4/8) on the simulated disk; (K2) the complete disk trace of every history is checked by the extracted Coq monitor; (oracle) crash images at I/O boundaries (all in thorough, 40 sampled per history in quick) x subsets of the un-synced page chunks (all subsets up to 4 [quick] / 8 [thorough] chunks, otherwise none/all/singletons/complements/random) x byte-prefix tears of in-flight header writes, each reopened through the real open path, compared with the allowed committed state(s) identified by the header txid, followed by a continuation transaction, re-verification and a second reopen; (K1) the recovery model vs. the open path on sampled crash images. plus transactions of more than 1024 / 2048 page writes (several batches of the background writer); plus append-only histories whose transactions are flushed early (idle writer at Commit). Non-trivial: every distinct (history, boundary, subset, tear)."
 		m, err := model.Start()
 		if err != nil {
 			fmt.Fprintln(os.Stderr, err)
@@ -408,6 +433,28 @@ func init() {
 			if i < 2 {
 				rep.sample(map[string]interface{}{"config": cfg.String(), "ops": trunc(opKinds(ops), 400)})
 			}
+		}
+		// transactions far bigger than one batch of the background writer (1024 queued page writes): the sync
+		// barriers of the commit must cover all of them
+		bigs := []int{2600}
+		if f.tier == "thorough" {
+			bigs = []int{1100, 1500, 2100, 2600, 3300, 5000}
+		}
+		for i, nb := range bigs {
+			hseed := r.Int63()
+			cfg := engine.Config{PageSize: 1024, MaxSize: 0, InitMetaArea: uint32(4 * (i % 2))}
+			ops := []engine.Op{{Kind: "begin"}, {Kind: "alloc", N: 2}, {Kind: "setfull", P: 0, Seed: 3}, {Kind: "setfull", P: 1, Seed: 4}, {Kind: "setroot", P: 0}, {Kind: "commit"},
+				{Kind: "begin"}, {Kind: "alloc", N: nb}}
+			for k := 0; k < nb; k++ {
+				ops = append(ops, engine.Op{Kind: "setfull", P: 2 + k, Seed: 1000 + k})
+			}
+			ops = append(ops, engine.Op{Kind: "setroot", P: 5}, engine.Op{Kind: "commit"})
+			rep.count("scenario:transaction-bigger-than-a-writer-batch", 1)
+			crashHistory(rep, m, cfg, ops, hseed, f.tier, nil)
+			// ... and followed by a small transaction (what was found so far is on disk if the writer goroutine dies)
+			rep.checkpoint()
+			ops = append(ops, engine.Op{Kind: "begin"}, engine.Op{Kind: "setfull", P: 1, Seed: 9}, engine.Op{Kind: "commit"}, engine.Op{Kind: "verify"})
+			crashHistory(rep, m, cfg, ops, hseed+1, f.tier, nil)
 		}
 		// append-only histories on files without meta area, every transaction is flushed early and the
 		// background writer is idle when Commit starts: the commit adds no meta pages, its first sync request
